@@ -378,6 +378,7 @@ func Run(opts *Options) (int, error) {
 						}
 						var changed bool
 						snapshot, count, changed = chunkList.Snapshot(opts.Tail)
+						verifTrace("core.snapshot", count, verifSnapshotEnd(snapshot), "")
 						if changed {
 							inputRevision.bumpMinor()
 						}
